@@ -156,7 +156,8 @@ class GenericGen:
             it.param_default_tys = {last: d}
         concrete = None
         if nparams >= 2 and r.random() < 0.25:
-            concrete = r.choice([p for p in params if p not in it.param_defaults] or [None])
+            # (also a parameter that has a Rust default: `concrete(P = X)` on `P = D`)
+            concrete = r.choice(params)
             if concrete:
                 it.concrete = {concrete: r.choice(["i32", "String", "Vec<bool>"])}
         # generics text
